@@ -154,7 +154,12 @@ def run_shard(ctx):
     mod = sys.modules[__name__]
     n = 1200 if ctx.tier == "quick" else 8000
     for i in range(n):
-        case = be.gen_ops(rnd, rnd.randint(1, 14 if ctx.tier == "quick" else 40))
+        if i % 20 == 19:
+            # SCALE: dozens of keys, deep tries
+            case = be.gen_ops(rnd, rnd.randint(60, 120), mode=rnd.choice(["dense", "fix2", "k32", "var"]))
+            ctx.count("bulk_histories")
+        else:
+            case = be.gen_ops(rnd, rnd.randint(1, 14 if ctx.tier == "quick" else 40))
         case["pseed"] = rnd.randrange(1 << 30)
         if i == 1:
             ctx.sample(case)
